@@ -1,6 +1,7 @@
 import Holpy.C05.IntervalModel
 import Holpy.C05.ProofsTval
 import Holpy.C05.PropsInterval
+import Holpy.C05.ProofsSigma
 import Mathlib.Data.Rat.Cast.Order
 /-
 C05 — `const_inequality` end to end: exact-vs-interval branch selection (`eval_bounds`), the
@@ -65,15 +66,33 @@ theorem evalBounds_encl (P : Prims) (F : RealFns K) (hP : PrimsOK P F) (hF : Fns
     exact ⟨le_refl _, le_refl _⟩
   · exact interval_eval_sound_given_enclosures P F hP e I h hw ht
 
-/-- `const_inequality` on real sides, PARTIAL in one respect only: the step that replaces the bounds by
-0 when the two sides have the same `convert_to_poly` needs "terms with equal polynomials have equal
-values in `K`"; `real_norm_macro_sound` proves this over ℚ, the transfer to a general ordered field is
-the hypothesis `hpoly`.  Everything else is proved: if the primitives of the interval context return
-enclosures (`PrimsOK`) and the real functions satisfy `FnsSpec`, then whenever the model of the macro
-accepts `a REL b` (exact or interval branch, any of the six relations), `tval a REL tval b` holds. -/
-theorem const_inequality_sound_partial (P : Prims) (F : RealFns K) (hP : PrimsOK P F) (hF : FnsSpec F)
-    (hpoly : ∀ (tbl : List AExpr) (a b : AExpr), toPoly (realToPE tbl a) = toPoly (realToPE tbl b) →
-      wt a = true → wt b = true → typeOf a = .real → typeOf b = .real → tval F a = tval F b)
+theorem relOf_sides_mem {goal : AExpr} {r : Rel} {a b : AExpr} (hrel : relOf goal = some (r, a, b)) :
+    (∀ t ∈ subterms a, t ∈ subterms goal) ∧ (∀ t ∈ subterms b, t ∈ subterms goal) := by
+  cases goal with
+  | eq T x y =>
+    simp [relOf] at hrel
+    obtain ⟨_, rfl, rfl⟩ := hrel
+    constructor <;> intro t ht <;> simp [subterms, ht]
+  | cmp op T x y =>
+    simp [relOf] at hrel
+    obtain ⟨_, rfl, rfl⟩ := hrel
+    constructor <;> intro t ht <;> simp [subterms, ht]
+  | neg g =>
+    cases g with
+    | eq T x y =>
+      simp [relOf] at hrel
+      obtain ⟨_, rfl, rfl⟩ := hrel
+      constructor <;> intro t ht <;> simp [subterms, ht]
+    | _ => simp [relOf] at hrel
+  | _ => simp [relOf] at hrel
+
+/-- `const_inequality` on real sides, end to end: if the primitives of the interval context return
+enclosures (`PrimsOK`, mpmath's property) and the abstract real functions satisfy `FnsSpec`
+(`exp 0 = 1`, `log 1 = 0`, `exp (p * log x) = x ^ p` for `0 < x` and integer `p`), then whenever the
+model of the macro accepts `a REL b` — exact or interval branch of `eval_bounds` on either side, the
+polynomial-equality shortcut, any of the six relations — `tval a REL tval b` holds in the ordered
+field. -/
+theorem const_inequality_sound (P : Prims) (F : RealFns K) (hP : PrimsOK P F) (hF : FnsSpec F)
     (goal : AExpr) (th : Thm) (r : Rel) (a b : AExpr) (hrel : relOf goal = some (r, a, b))
     (hta : typeOf a = .real) :
     acceptConstInequality P goal = .ok th → th.prop = goal ∧ r.holdsK (tval F a) (tval F b) := by
@@ -120,22 +139,26 @@ theorem const_inequality_sound_partial (P : Prims) (F : RealFns K) (hP : PrimsOK
     · rename_i hshort
       cases hdec
       simp only [Bool.and_eq_true, beq_iff_eq] at hshort
-      rw [hpoly _ a b hshort.2 hwa hwb hta htb]
+      obtain ⟨hma, hmb⟩ := relOf_sides_mem hrel
+      rw [poly_eq_tval F hF _ a b hshort.2 hwa hwb hta htb hma hmb]
       exact accept_zero_refl r _ hok
     · cases hdec
       exact interval_accept_soundK r _ _ i1 i2 e1 e2 hok
   · cases hm
 
 /- `sqrt 2 + 1 > 2` is not decided by `real_eval`; with primitives that enclose, acceptance gives the
-inequality between the values (stated for any field, primitives and functions meeting the hypotheses) -/
-example (P : Prims) (F : RealFns K) (hP : PrimsOK P F) (hF : FnsSpec F)
-    (hpoly : ∀ (tbl : List AExpr) (a b : AExpr), toPoly (realToPE tbl a) = toPoly (realToPE tbl b) →
-      wt a = true → wt b = true → typeOf a = .real → typeOf b = .real → tval F a = tval F b)
-    (th : Thm)
+inequality between the values (for any field, primitives and functions meeting the hypotheses; over ℚ
+no `exp`/`log` satisfies `FnsSpec`, an instance needs the real numbers) -/
+example (P : Prims) (F : RealFns K) (hP : PrimsOK P F) (hF : FnsSpec F) (th : Thm)
     (h : acceptConstInequality P (.cmp .gt .real (.plus .real (.fn .sqrt (.ofNat .real (.bit0 (.one .nat)))) (.one .real))
       (.ofNat .real (.bit0 (.one .nat)))) = .ok th) :
     tval F (.ofNat .real (.bit0 (.one .nat))) <
       tval F (.plus .real (.fn .sqrt (.ofNat .real (.bit0 (.one .nat)))) (.one .real)) :=
-  (const_inequality_sound_partial P F hP hF hpoly _ th (.cmp .gt) _ _ rfl rfl h).2
+  (const_inequality_sound P F hP hF _ th (.cmp .gt) _ _ rfl rfl h).2
+
+/- and the model does accept it with the exact-arithmetic context when `sqrt` is enclosed by [7/5, 3/2] -/
+example : (acceptConstInequality (tablePrims [("sqrt", ((2 : Rat), (2 : Rat)), ((7 / 5 : Rat), (3 / 2 : Rat)))] (3, 4))
+    (.cmp .gt .real (.plus .real (.fn .sqrt (.ofNat .real (.bit0 (.one .nat)))) (.one .real))
+      (.ofNat .real (.bit0 (.one .nat))))).isOk = true := by decide +kernel
 
 end Holpy.C05
